@@ -30,6 +30,17 @@ for tag in ('sh', 'cbor', 'mice', 'sxgver', 'bundlever'):
     old = open(dst).read() if os.path.exists(dst) else None
     if old != r.stdout:
         open(dst, 'w').write(r.stdout)
+# shared-state touch points of the library packages (tie for C18)
+dst = os.path.join(os.path.dirname(out), 'Purity.lean')
+r = subprocess.run(['go', 'run', 'main.go', repo], cwd=os.path.join(here, 'purity'), env=env, capture_output=True, text=True)
+if r.returncode != 0 or 'namespace WebPkg.Purity' not in r.stdout:
+    if os.path.exists(dst):
+        os.remove(dst)
+    errs.append('xlate purity: ' + ((r.stderr or r.stdout).strip().splitlines() or ['failed'])[0][:300])
+else:
+    old = open(dst).read() if os.path.exists(dst) else None
+    if old != r.stdout:
+        open(dst, 'w').write(r.stdout)
 if errs:
     sys.stdout.write(' | '.join(errs))
     sys.exit(1)
